@@ -10,6 +10,21 @@ sys.path.insert(0, HERE)
 import py2coq_arith as A
 
 STATUS = {}
+SNAP_PATH = os.path.join(HERE, 'snapshot_stats.json')
+SNAP = json.load(open(SNAP_PATH)) if os.path.exists(SNAP_PATH) else {}
+NEW_SNAP = {}
+
+
+def unavailable(name, props, key, reason, stub):
+    """DESIGN.md 1.5: the anchor is missing or the text is outside the translator's subset -> the committed snapshot of the
+    last good generated text is used, the refusal is recorded in the evidence, and the tie for this kernel on this run is the
+    correspondence of the implementation with the snapshot model (plus the closed-form specification).  No snapshot -> stub + alarm."""
+    if key in SNAP:
+        STATUS[name] = dict(ok=True, properties=props, snapshot=True,
+                            error='regen unavailable (%s): committed snapshot used, tie by correspondence' % reason)
+        return '(* translator refused: %s -- committed snapshot of the last good text *)\n' % reason.replace('*)', '* )') + SNAP[key]
+    status(name, False, props, reason)
+    return stub
 
 
 def write_if_changed(path, text):
@@ -47,11 +62,12 @@ def gen_stats():
             if tree is None:
                 raise A.TranslateError('stats.py does not parse')
             fn = A.find_function(tree, name)
-            q.append(A.ValFn(fn).emit(cname))
+            txt = A.ValFn(fn).emit(cname)
+            NEW_SNAP[cname + ':Q'] = txt
+            q.append(txt)
             status('stats.' + name, True, props)
         except A.TranslateError as e:
-            q.append(A.val_stub(cname, nsc, str(e)))
-            status('stats.' + name, False, props, str(e))
+            q.append(unavailable('stats.' + name, props, cname + ':Q', str(e), A.val_stub(cname, nsc, str(e))))
     for name, props in [('pc_n', ['C02', 'C06']), ('varpc_n', ['C06'])]:
         cname = 'gen_' + name
         try:
@@ -60,13 +76,13 @@ def gen_stats():
             fn = A.find_function(tree, name)
             tq = A.ExprFn(fn).emit_scope(cname, 'Q')
             tr = A.ExprFn(fn).emit_scope(cname, 'R')
+            NEW_SNAP[cname + ':Q'], NEW_SNAP[cname + ':R'] = tq, tr
             q.append(tq)
             r.append(tr)
             status('stats.' + name, True, props)
         except A.TranslateError as e:
-            q.append(A.expr_stub(cname, 'Q', str(e)))
-            r.append(A.expr_stub(cname, 'R', str(e)))
-            status('stats.' + name, False, props, str(e))
+            q.append(unavailable('stats.' + name, props, cname + ':Q', str(e), A.expr_stub(cname, 'Q', str(e))))
+            r.append(unavailable('stats.' + name, props, cname + ':R', str(e), A.expr_stub(cname, 'R', str(e))))
     write_if_changed(os.path.join(ROOT, 'coq/gen/Gen_stats.v'), '\n'.join(q) + '\n')
     write_if_changed(os.path.join(ROOT, 'coq/gen/Gen_stats_R.v'), '\n'.join(r) + '\n')
 
@@ -91,6 +107,9 @@ def main():
     os.makedirs(os.path.join(ROOT, 'build'), exist_ok=True)
     with open(os.path.join(ROOT, 'build', 'regen_status.json'), 'w') as f:
         json.dump(STATUS, f, indent=1)
+    if '--write-snapshot' in sys.argv:      # maintainer action on a tree whose kernels are known good; never done by a check
+        with open(SNAP_PATH, 'w') as f:
+            json.dump(NEW_SNAP, f, indent=1, sort_keys=True)
 
 
 if __name__ == '__main__':
